@@ -7,6 +7,7 @@
 From Coq Require Import List Arith Lia.
 Import ListNotations.
 From TV Require Import Conc.Tracer Proofs.TracerProofs.
+From TV Require Import Conc.TracerRich Proofs.TracerOrder Proofs.TracerRichProofs Proofs.TracerLive Proofs.TracerFlows Proofs.TracerExamples.
 
 (* every value a snapshot returns is the result of applying the whole consecutive rounds b..r-1 to an empty
    state, where b is the handler's round index at the last clear completed before the snapshot: never part of
@@ -48,3 +49,347 @@ Proof. reflexivity. Qed.
    sub-update list of a round in progress is not a whole-rounds state *)
 Example c20_torn_is_not_whole : [(0,0)] <> rounds_state (fun _ => 2) 0 1 /\ [(0,0)] <> rounds_state (fun _ => 2) 0 0.
 Proof. split; discriminate. Qed.
+
+
+(* ====================================================================================================
+   Order, freshness, clear, per-round / per-flow atomicity and deadlock freedom, proved about the same
+   model Conc/Tracer.v (every schedule, any number of reader and clearer threads).  The list [obs] holds the
+   snapshots in the order of their clones; an entry (v, b, r) carries the value, the handler's round index at
+   the last clear completed before the clone (b) and the handler's round index at the clone (r).
+   ==================================================================================================== *)
+
+(* monotonicity: of any two snapshots, the one cloned later was taken at a later-or-equal clear marker and a
+   later-or-equal round index, and both are whole-rounds states.  In particular two snapshots taken by the same
+   reader thread one after the other (program order implies clone order) never go back in rounds. *)
+Theorem c20_snapshots_monotone : forall nrounds m nr nc sched o1 v1 b1 r1 o2 v2 b2 r2 o3,
+  obs (texec nrounds m nr nc sched) = o1 ++ (v1, b1, r1) :: o2 ++ (v2, b2, r2) :: o3 ->
+  b1 <= b2 /\ r1 <= r2 /\ b1 <= r1 /\ b2 <= r2 /\ v1 = rounds_state m b1 r1 /\ v2 = rounds_state m b2 r2.
+Proof. exact obs_monotone. Qed.
+
+(* no clear completed between the two snapshots (same marker b): the later one shows at least as many rounds and
+   its value is the earlier value followed by the whole rounds r1..r2-1 (prefix order on the list of rounds) *)
+Theorem c20_later_snapshot_extends : forall nrounds m nr nc sched o1 v1 b r1 o2 v2 r2 o3,
+  obs (texec nrounds m nr nc sched) = o1 ++ (v1, b, r1) :: o2 ++ (v2, b, r2) :: o3 ->
+  r1 - b <= r2 - b /\ v2 = v1 ++ rounds_state m r1 r2.
+Proof. exact obs_prefix. Qed.
+
+(* with clears in between: the later snapshot is the earlier one with the cleared whole rounds b1..b2-1 removed from
+   the front and the new whole rounds r1..r2-1 appended - never anything but whole rounds changes *)
+Theorem c20_cut_and_extend : forall nrounds m nr nc sched o1 v1 b1 r1 o2 v2 b2 r2 o3,
+  obs (texec nrounds m nr nc sched) = o1 ++ (v1, b1, r1) :: o2 ++ (v2, b2, r2) :: o3 ->
+  b2 <= r1 ->
+  v1 = rounds_state m b1 b2 ++ rounds_state m b2 r1 /\ v2 = rounds_state m b2 r1 ++ rounds_state m r1 r2.
+Proof. exact obs_cut_extend. Qed.
+
+(* cut the schedule anywhere (s1 = what happened so far): every snapshot cloned later is a whole-rounds state whose
+   clear marker and round index are at least those reached at the cut *)
+Theorem c20_snapshots_after : forall nrounds m nr nc s1 s2,
+  exists ext, obs (texec nrounds m nr nc (s1 ++ s2)) = obs (texec nrounds m nr nc s1) ++ ext /\
+    Forall (fun o => let '(v, b, r) := o in
+              base (texec nrounds m nr nc s1) <= b /\ hround (hd (texec nrounds m nr nc s1)) <= r /\
+              b <= r /\ v = rounds_state m b r) ext.
+Proof. exact obs_after. Qed.
+
+(* freshness: once the handler has released the write lock after round q (its index has passed q), every snapshot
+   cloned afterwards - so every snapshot() that starts afterwards - contains all sub-updates of round q, unless a
+   clear completed after round q (then b > q) *)
+Theorem c20_fresh : forall nrounds m nr nc s1 s2 q v b r,
+  q < hround (hd (texec nrounds m nr nc s1)) ->
+  In (v, b, r) (obs (texec nrounds m nr nc (s1 ++ s2))) ->
+  In (v, b, r) (obs (texec nrounds m nr nc s1)) \/
+  (q < r /\ (b <= q -> forall k, k < m q -> In (q, k) v)).
+Proof. exact obs_fresh. Qed.
+
+(* clear: once a clear has completed with the handler at index c (marker base = c), no snapshot cloned afterwards
+   shows any sub-update of a round q < c, i.e. of a round published before that clear *)
+Theorem c20_cleared : forall nrounds m nr nc s1 s2 v b r q k,
+  q < base (texec nrounds m nr nc s1) ->
+  In (v, b, r) (obs (texec nrounds m nr nc (s1 ++ s2))) ->
+  In (v, b, r) (obs (texec nrounds m nr nc s1)) \/ ~ In (q, k) v.
+Proof. exact obs_cleared. Qed.
+
+(* a snapshot contains either all sub-updates of a round or none of them *)
+Theorem c20_round_all_or_none : forall nrounds m nr nc sched v b r q k1 k2,
+  In (v, b, r) (obs (texec nrounds m nr nc sched)) -> k1 < m q -> k2 < m q ->
+  (In (q, k1) v <-> In (q, k2) v).
+Proof. exact obs_all_or_none. Qed.
+
+(* the per-flow sub-updates of State::update_from_round: let tgt say which flow entry each sub-update writes (for
+   trippy: the first writes flow 0, the last the round's own flow; any number of flows).  No snapshot shows flow f
+   updated with round q while flow g has not seen round q, and vice versa. *)
+Theorem c20_flows_agree : forall nrounds m tgt nr nc sched v b r q k1 k2 f g,
+  In (v, b, r) (obs (texec nrounds m nr nc sched)) ->
+  k1 < m q -> k2 < m q -> tgt q k1 = Some f -> tgt q k2 = Some g ->
+  (In q (flow_view tgt f v) <-> In q (flow_view tgt g v)).
+Proof. exact obs_flows_agree. Qed.
+
+(* deadlock freedom of the discipline: in every reachable state some thread can take a step that changes the
+   state, unless the tracer has published all rounds, the lock is free and there are no reader / clearer threads
+   (in this model readers and clearers call again and again, so they are never "done") *)
+Theorem c20_deadlock_free : forall nrounds m nr nc sched,
+  let s := texec nrounds m nr nc sched in
+  (exists t, tstep nrounds m s t <> s) \/
+  (exists r, hd s = HIdle r /\ nrounds <= r /\ lk s = Free /\ nr = 0 /\ nc = 0).
+Proof. exact core_deadlock_free. Qed.
+
+(* a reader holds the read lock while the writer waits: the handler's step and every idle clearer's step change
+   nothing (blocked), a further reader is admitted (count + 1), and some holder can go on *)
+Theorem c20_writer_waits_for_readers : forall nrounds m nr nc sched n,
+  let s := texec nrounds m nr nc sched in
+  lk s = Readers n ->
+  tstep nrounds m s TH = s /\
+  (forall j, nth_error (cls s) j = Some CIdle -> tstep nrounds m s (TC j) = s) /\
+  (forall i, nth_error (rds s) i = Some RIdle -> lk (tstep nrounds m s (TR i)) = Readers (S n)) /\
+  (exists i, tstep nrounds m s (TR i) <> s).
+Proof. exact core_writer_waits. Qed.
+
+(* non-vacuity: three rounds of two sub-updates, two readers, one clearer.  Reader 0 acquires while the handler
+   writes round 0 (blocked), reader 1 joins it under the read lock while the handler waits; a clear between rounds 1
+   and 2; reader 0 again.  Snapshots 1 and 2 share the marker 0 (the second extends nothing: same rounds), snapshot
+   3 extends them by round 1, snapshot 4 is taken after the clear (marker 2): rounds 0 and 1 are gone. *)
+Definition c20_schedA : list tid :=
+  [TH; TR 0; TH; TH; TH; TR 0; TR 1; TH; TR 0; TR 1; TR 0; TR 1; TH; TH; TH; TH; TR 1; TR 1; TR 1;
+   TC 0; TC 0; TC 0; TH; TR 0; TH; TH; TH; TR 0; TR 0; TR 0].
+Example c20_order_example :
+  obs (texec 3 (fun _ => 2) 2 1 c20_schedA) =
+    [([(0,0); (0,1)], 0, 1); ([(0,0); (0,1)], 0, 1); ([(0,0); (0,1); (1,0); (1,1)], 0, 2); ([(2,0); (2,1)], 2, 3)].
+Proof. reflexivity. Qed.
+(* at the cut after 19 steps the handler's index is 2 and no clear has completed; afterwards the marker is 2 *)
+Example c20_cut_example :
+  hround (hd (texec 3 (fun _ => 2) 2 1 (firstn 19 c20_schedA))) = 2 /\ base (texec 3 (fun _ => 2) 2 1 (firstn 19 c20_schedA)) = 0 /\
+  base (texec 3 (fun _ => 2) 2 1 (firstn 22 c20_schedA)) = 2.
+Proof. repeat split; reflexivity. Qed.
+(* flows: sub-update 0 writes flow 0, sub-update 1 writes flow 7 (the round's own flow) *)
+Example c20_flows_example :
+  flow_view (fun _ k => if k =? 0 then Some 0 else Some 7) 0 [(0,0); (0,1); (1,0); (1,1)] = [0; 1] /\
+  flow_view (fun _ k => if k =? 0 then Some 0 else Some 7) 7 [(0,0); (0,1); (1,0); (1,1)] = [0; 1].
+Proof. split; reflexivity. Qed.
+(* a reachable state in which a reader holds the lock and the handler has rounds left: the writer waits *)
+Example c20_writer_waits_example :
+  lk (texec 3 (fun _ => 2) 2 1 (firstn 6 c20_schedA)) = Readers 1 /\ hd (texec 3 (fun _ => 2) 2 1 (firstn 6 c20_schedA)) = HIdle 1.
+Proof. split; reflexivity. Qed.
+
+(* ====================================================================================================
+   The richer model Conc/TracerRich.v: Conc/Tracer.v plus a history of events with thread identities, the error
+   hand-off of Tracer::run (handle_error sets the error component [err] under the write lock, in one more critical
+   section after the last round), Tracer::clear as repaired in commit 70dc05f (one write-locked section: the round
+   data are emptied, the error is kept), parked writers with deferring (XR i true) and non-deferring (XR i false)
+   reader acquisitions, and finite call budgets rb / cb of the reader / clearer threads.  A snapshot event
+   ESnap i v e carries the round data v and the error flag e, both read under the same read lock.
+   ==================================================================================================== *)
+
+(* simulation: the lock, the round data and the program counters of the richer model move only by steps of
+   Conc/Tracer.v (the error section being one more section, without round sub-updates): every execution projects
+   onto an execution of Conc/Tracer.v that is not longer *)
+Theorem c20_rich_simulated : forall nrounds m fails rb cb sched,
+  exists sched', length sched' <= length sched /\
+    co (rexec nrounds m fails rb cb sched) = texec (nsec nrounds fails) (msec nrounds m) (length rb) (length cb) sched'.
+Proof. exact rexec_simulates. Qed.
+
+(* and the round data of the snapshots of the history are exactly the observations of that Conc/Tracer.v component *)
+Theorem c20_rich_snapshots_are_observations : forall nrounds m fails rb cb sched,
+  snap_vals (log (rexec nrounds m fails rb cb sched)) =
+  map (fun o => fst (fst o)) (obs (co (rexec nrounds m fails rb cb sched))).
+Proof. exact rich_snaps_are_obs. Qed.
+
+(* linearizability: whatever the schedule, the pair (round data, error) a snapshot returns is the sequential replay
+   of the history before its clone: each published round appended whole (at the handler's release), each clear
+   emptying the round data and keeping the error (at clear()'s release), the error set (at handle_error's release) *)
+Theorem c20_linearizable : forall nrounds m fails rb cb sched l1 i v e l2,
+  log (rexec nrounds m fails rb cb sched) = l1 ++ ESnap i v e :: l2 -> (v, e) = replay m l1.
+Proof. exact rich_linearizable. Qed.
+
+(* hence the round data are the whole rounds b..p-1 (b <= p <= nrounds); a snapshot that shows the error comes from a
+   failed run and has p = nrounds: the error together with ALL rounds since the last clear - never the error with a
+   half round, never the error without the last round *)
+Theorem c20_rich_whole_rounds : forall nrounds m fails rb cb sched l1 i v e l2,
+  log (rexec nrounds m fails rb cb sched) = l1 ++ ESnap i v e :: l2 ->
+  exists b p, b <= p /\ p <= nrounds /\ v = rounds_state m b p /\ (e = true -> fails = true /\ p = nrounds).
+Proof. exact rich_whole. Qed.
+
+(* monotonicity per reader: two snapshots i1 = i2 of the same reader in program order (or of two readers, in clone
+   order) with no clear() returning between them: the later round data are the earlier ones followed by exactly the
+   sub-updates of the rounds published in between, so it shows at least as many rounds; an error shown stays shown *)
+Theorem c20_reader_monotone : forall nrounds m fails rb cb sched l1 i1 v1 e1 l2 i2 v2 e2 l3,
+  log (rexec nrounds m fails rb cb sched) = l1 ++ ESnap i1 v1 e1 :: l2 ++ ESnap i2 v2 e2 :: l3 -> no_clear l2 ->
+  v2 = v1 ++ flat_map (ev_atoms m) l2 /\ length v1 <= length v2 /\ (e1 = true -> e2 = true).
+Proof. exact rich_monotone. Qed.
+
+(* freshness: a snapshot cloned after the handler released the lock for round r, no clear() returning in between,
+   contains every sub-update of round r *)
+Theorem c20_fresh_after_release : forall nrounds m fails rb cb sched l1 r l2 i v e l3,
+  log (rexec nrounds m fails rb cb sched) = l1 ++ EPub r :: l2 ++ ESnap i v e :: l3 -> no_clear l2 ->
+  forall k, k < m r -> In (r, k) v.
+Proof. exact rich_fresh. Qed.
+
+(* the same, word for word: reader i CALLS snapshot() after the release of round r, and this call returns v *)
+Theorem c20_fresh_after_call : forall nrounds m fails rb cb sched l1 r l2 i l3 v e l4,
+  log (rexec nrounds m fails rb cb sched) = l1 ++ EPub r :: l2 ++ EStart i :: l3 ++ ESnap i v e :: l4 ->
+  no_clear l2 -> no_clear l3 -> forall k, k < m r -> In (r, k) v.
+Proof. exact rich_fresh_started. Qed.
+
+(* clear: a snapshot cloned after a clear() returned never shows a sub-update of a round published before that
+   clear; an error stored before that clear it DOES show (the repaired clear keeps the error) *)
+Theorem c20_clear_hides_older_rounds : forall nrounds m fails rb cb sched l1 j l2 i v e l3,
+  log (rexec nrounds m fails rb cb sched) = l1 ++ EClr j :: l2 ++ ESnap i v e :: l3 ->
+  (forall r k, In (EPub r) l1 -> ~ In (r, k) v) /\ (In EErr l1 -> e = true).
+Proof. exact rich_clear. Qed.
+
+(* error hand-off: a snapshot cloned after handle_error released the lock, no clear() returning in between, shows
+   the error together with exactly the state handle_error found: ALL rounds of the run since the last clear, whole *)
+Theorem c20_error_handoff : forall nrounds m fails rb cb sched l1 l2 i v e l3,
+  log (rexec nrounds m fails rb cb sched) = l1 ++ EErr :: l2 ++ ESnap i v e :: l3 -> no_clear l2 ->
+  e = true /\ v = fst (replay m l1) /\ exists b, b <= nrounds /\ v = rounds_state m b nrounds.
+Proof. exact rich_error. Qed.
+
+(* the error survives every clear (repaired Tracer::clear): every snapshot cloned - a fortiori every snapshot() called -
+   after handle_error released the lock shows the error, whatever clears happen before, between or after; its round data
+   are exactly the whole rounds published since the last completed clear: what handle_error found if no clear returned
+   since, nothing if one did (no round is published after the error) *)
+Theorem c20_error_survives_clear : forall nrounds m fails rb cb sched l1 l2 i v e l3,
+  log (rexec nrounds m fails rb cb sched) = l1 ++ EErr :: l2 ++ ESnap i v e :: l3 ->
+  e = true /\
+  (no_clear l2 -> v = fst (replay m l1)) /\
+  ((exists j, In (EClr j) l2) -> v = []) /\
+  exists b, b <= nrounds /\ v = rounds_state m b nrounds.
+Proof. exact rich_error_survives_clear. Qed.
+
+(* a snapshot shows the error exactly when handle_error released the lock before its clone: one cloned before
+   handle_error never shows it (no early or half-stored error), one cloned after always does *)
+Theorem c20_error_iff_handed_off : forall nrounds m fails rb cb sched l1 i v e l2,
+  log (rexec nrounds m fails rb cb sched) = l1 ++ ESnap i v e :: l2 -> (e = true <-> In EErr l1).
+Proof. exact rich_error_iff. Qed.
+
+(* once a snapshot has shown the error every later snapshot shows it, whatever clears happen in between *)
+Theorem c20_error_is_stable : forall nrounds m fails rb cb sched l1 i1 v1 e1 l2 i2 v2 e2 l3,
+  log (rexec nrounds m fails rb cb sched) = l1 ++ ESnap i1 v1 e1 :: l2 ++ ESnap i2 v2 e2 :: l3 -> e1 = true -> e2 = true.
+Proof. exact rich_error_stable. Qed.
+
+(* per-flow sub-updates in the richer model: flows f and g written by sub-updates of round q have both seen round q
+   or neither has, in every snapshot of every history *)
+Theorem c20_rich_flows_agree : forall nrounds m tgt fails rb cb sched l1 i v e l2 q k1 k2 f g,
+  log (rexec nrounds m fails rb cb sched) = l1 ++ ESnap i v e :: l2 ->
+  k1 < m q -> k2 < m q -> tgt q k1 = Some f -> tgt q k2 = Some g ->
+  (forall k, m q <= k -> tgt q k = None) ->
+  (In q (flow_view tgt f v) <-> In q (flow_view tgt g v)).
+Proof. exact rich_flows_agree. Qed.
+
+(* deadlock freedom with parked writers: in every reachable state either every thread is done (tracer finished,
+   all budgets used up, nobody inside a call) or some thread has an enabled step - even if every reader acquisition
+   defers to parked writers *)
+Theorem c20_rich_deadlock_free : forall nrounds m fails rb cb sched,
+  let s := rexec nrounds m fails rb cb sched in
+  all_done nrounds fails s = true \/ exists t, polite_only t /\ renabled nrounds fails s t = true.
+Proof. exact rich_deadlock_free. Qed.
+
+(* a step that is not enabled is a blocked acquisition or a finished thread: nothing but a parked flag changes *)
+Theorem c20_blocked_step_is_parking : forall nrounds m fails s t,
+  renabled nrounds fails s t = false ->
+  co (rstep nrounds m fails s t) = co s /\ log (rstep nrounds m fails s t) = log s.
+Proof. exact rich_blocked_is_parking. Qed.
+
+(* reader holds, writer waits, both parking_lot behaviours: the tracer thread parks (its step leaves lock and cell
+   alone, it is not enabled); then a deferring acquisition of another reader is refused (the state does not change)
+   while a non-deferring one is admitted (reader count + 1) *)
+Theorem c20_parked_writer_both_policies : forall nrounds m fails s n r i bud,
+  lk (co s) = Readers n -> hd (co s) = HIdle r -> r < nsec nrounds fails ->
+  nth_error (rds (co s)) i = Some RIdle -> nth i (rx s) (false, 0) = (true, bud) ->
+  let s' := rstep nrounds m fails s XH in
+  co s' = co s /\ hpark s' = true /\ renabled nrounds fails s' XH = false /\
+  rstep nrounds m fails s' (XR i true) = s' /\ renabled nrounds fails s' (XR i true) = false /\
+  lk (co (rstep nrounds m fails s' (XR i false))) = Readers (S n) /\ renabled nrounds fails s' (XR i false) = true.
+Proof. exact rich_parked_writer. Qed.
+
+(* every enabled step of a reachable state consumes exactly one unit of the remaining work *)
+Theorem c20_work_decreases : forall nrounds m fails rb cb sched t,
+  let s := rexec nrounds m fails rb cb sched in
+  renabled nrounds fails s t = true -> work nrounds m fails (rstep nrounds m fails s t) + 1 = work nrounds m fails s.
+Proof. exact rich_work_decreases. Qed.
+
+(* so a run of enabled steps from a reachable state is never longer than the remaining work (no livelock) *)
+Theorem c20_enabled_runs_bounded : forall nrounds m fails rb cb l sched,
+  enabled_run nrounds m fails (rexec nrounds m fails rb cb sched) l ->
+  work nrounds m fails (rexec nrounds m fails rb cb (sched ++ l)) + length l = work nrounds m fails (rexec nrounds m fails rb cb sched).
+Proof. exact rich_enabled_run_bound. Qed.
+
+(* and when the work is used up every thread is done: scheduling enabled steps (one always exists otherwise) ends,
+   after exactly work-many steps, with the tracer finished and all snapshot() / clear() calls returned *)
+Theorem c20_no_work_all_done : forall nrounds m fails rb cb sched,
+  work nrounds m fails (rexec nrounds m fails rb cb sched) = 0 -> all_done nrounds fails (rexec nrounds m fails rb cb sched) = true.
+Proof. exact rich_no_work_all_done. Qed.
+
+(* non-vacuity: schedS (Proofs/TracerExamples.v): two rounds, the run fails, readers 0 and 1 overlap each other and
+   the handler, the tracer thread parks behind two readers, a clearer parks behind a reader *)
+Example c20_history_example : log sysS =
+  [EStart 0; EStart 1; EPub 0; ESnap 1 r0 false; ESnap 0 r0 false; EStart 1; EPub 1; EStart 0; ESnap 0 r01 false; EErr;
+   ESnap 1 r01 true; EClr 0; EStart 0; ESnap 0 [] true].
+Proof. exact logS. Qed.
+(* reader 0, first and second snapshot, no clear in between: extended by round 1 *)
+Example c20_reader_monotone_example :
+  log sysS = [EStart 0; EStart 1; EPub 0; ESnap 1 r0 false] ++ ESnap 0 r0 false :: [EStart 1; EPub 1; EStart 0] ++ ESnap 0 r01 false :: [EErr; ESnap 1 r01 true; EClr 0; EStart 0; ESnap 0 [] true]
+  /\ no_clear [EStart 1; EPub 1; EStart 0] /\ r01 = r0 ++ flat_map (ev_atoms (fun _ => 2)) [EStart 1; EPub 1; EStart 0].
+Proof. split; [exact logS|]. split; [no_clear_tac|reflexivity]. Qed.
+(* reader 0 calls snapshot() after round 1 was released *)
+Example c20_fresh_example :
+  log sysS = [EStart 0; EStart 1; EPub 0; ESnap 1 r0 false; ESnap 0 r0 false; EStart 1] ++ EPub 1 :: [] ++ EStart 0 :: [] ++ ESnap 0 r01 false :: [EErr; ESnap 1 r01 true; EClr 0; EStart 0; ESnap 0 [] true]
+  /\ no_clear [] /\ In (1, 1) r01.
+Proof. split; [exact logS|]. split; [no_clear_tac|cbn; auto]. Qed.
+(* reader 1 clones after handle_error: the error and both rounds *)
+Example c20_error_example :
+  log sysS = [EStart 0; EStart 1; EPub 0; ESnap 1 r0 false; ESnap 0 r0 false; EStart 1; EPub 1; EStart 0; ESnap 0 r01 false] ++ EErr :: [] ++ ESnap 1 r01 true :: [EClr 0; EStart 0; ESnap 0 [] true]
+  /\ no_clear [] /\ r01 = rounds_state (fun _ => 2) 0 2.
+Proof. split; [exact logS|]. split; [no_clear_tac|reflexivity]. Qed.
+(* reader 0 calls and clones after the clear that followed handle_error: no round data, the error still there *)
+Example c20_clear_example :
+  log sysS = [EStart 0; EStart 1; EPub 0; ESnap 1 r0 false; ESnap 0 r0 false; EStart 1; EPub 1; EStart 0; ESnap 0 r01 false; EErr; ESnap 1 r01 true] ++ EClr 0 :: [EStart 0] ++ ESnap 0 [] true :: [].
+Proof. exact logS. Qed.
+(* clears before, after and again after handle_error (err_clear_sched): reader 1 cloned before handle_error sees
+   round 0 and no error; reader 0, called after the clear that followed handle_error, sees the error and no round data,
+   and again after a second clear by another clearer *)
+Example c20_error_survives_clear_example :
+  log sysE = [EClr 0; EPub 0; EStart 1; ESnap 1 [(0, 0)] false] ++ EErr :: [EClr 0; EStart 0] ++ ESnap 0 [] true :: [EClr 1; EStart 0; ESnap 0 [] true]
+  /\ log sysE = [EClr 0; EPub 0; EStart 1; ESnap 1 [(0, 0)] false] ++ EErr :: [EClr 0; EStart 0; ESnap 0 [] true; EClr 1; EStart 0] ++ ESnap 0 [] true :: []
+  /\ (exists j, In (EClr j) [EClr 0; EStart 0]).
+Proof. split; [exact logE|]. split; [exact logE|]. exists 0. left. reflexivity. Qed.
+(* at the end every thread is done and no work is left; initially there were 34 units, and schedS has 39 steps:
+   34 enabled ones and 5 blocked attempts *)
+Example c20_done_example :
+  all_done 2 true sysS = true /\ work 2 (fun _ => 2) true sysS = 0 /\
+  work 2 (fun _ => 2) true (rinit [3; 2] [1]) = 34 /\ length schedS = 39.
+Proof. repeat split; vm_compute; reflexivity. Qed.
+(* reader 0 holds the read lock, reader 1 is inside snapshot(), the tracer thread has parked: the handler and the
+   clearer are not enabled, the holder is, reader 1 is refused when deferring and admitted when not *)
+Example c20_parked_example :
+  let s := rexec 2 (fun _ => 2) true [3; 2] [1] [XR 0 false; XR 1 false; XR 0 true; XH] in
+  hpark s = true /\ lk (co s) = Readers 1 /\
+  map (renabled 2 true s) [XH; XR 0 true; XR 1 true; XR 1 false; XC 0] = [false; true; false; true; false].
+Proof. repeat split; vm_compute; reflexivity. Qed.
+
+(* ====================================================================================================
+   NEGATIVE examples: the theorems are about the lock discipline, not true by construction.
+   ==================================================================================================== *)
+
+(* a handler that releases the write lock between the two sub-updates of a round (per-flow locking, torn_step in
+   Conc/TracerRich.v; readers and clearers unchanged) admits a schedule with a torn snapshot: the value is no
+   whole-rounds state for any marker, flow 0 has seen round 0 and the round's own flow 1 has not *)
+Theorem c20_split_lock_refuted :
+  exists v b r, In (v, b, r) (obs (fst (torn_exec 1 (fun _ => 2) 1 0 torn_sched))) /\
+    (forall b' r', v <> rounds_state (fun _ => 2) b' r') /\
+    In 0 (flow_view (fun _ k => Some k) 0 v) /\ ~ In 0 (flow_view (fun _ k => Some k) 1 v).
+Proof. exact torn_refuted. Qed.
+
+(* a clone-modify-store handler (clone under the read lock, update the copy unlocked, store under the write lock;
+   cms_step) admits a schedule in which a snapshot taken after a completed clear (marker b = 1) shows round 0,
+   published before that clear: the "mixture of data from before and after a clear" *)
+Theorem c20_clone_modify_store_refuted :
+  exists v b r, In (v, b, r) (obs (fst (cms_exec 2 (fun _ => 1) 1 1 cms_sched))) /\
+    0 < b /\ In (0, 0) v /\ v <> rounds_state (fun _ => 1) b r.
+Proof. exact cms_refuted. Qed.
+
+(* the same two schedules under the real discipline *)
+Example c20_split_lock_schedule_ok :
+  map (fun o => fst (fst o)) (obs (texec 1 (fun _ => 2) 1 0 torn_sched)) = [[(0, 0); (0, 1)]].
+Proof. reflexivity. Qed.
+Example c20_clone_modify_store_schedule_ok :
+  obs (texec 2 (fun _ => 1) 1 1 cms_sched) = [([], 2, 2)].
+Proof. reflexivity. Qed.
